@@ -65,6 +65,8 @@ type dmaMon struct {
 	closed map[string]*dmaCopy
 	subs   map[string]*dmaSub
 	late   map[string]bool // sub-requests of copies that were already answered
+	order  []*dmaSub       // sub-requests in issue order; head = oldest possibly unanswered
+	head   int
 	done   []*dmaCopy      // answered copies, in answer order (consumed by the driver-level check)
 }
 
@@ -250,6 +252,7 @@ func (m *copyMon) onPort(e simkit.Event) {
 			owner.firstSub = e.Seq
 		}
 		owner.subs = append(owner.subs, s)
+		d.order = append(d.order, s)
 		d.subs[s.id] = s
 		m.count("dma_sub_requests", 1)
 	case side == "mem" && e.Kind == simkit.KRetrieve: // the engine took the memory response from its port
@@ -275,6 +278,21 @@ func (m *copyMon) onPort(e simkit.Event) {
 		if s.done {
 			m.viol("C11|dma|sub-request-answered-twice", "a DMA sub-request got two memory responses", wit(map[string]any{"addr": s.addr}))
 			return
+		}
+		// out of issue order: an earlier-issued sub-request is still unanswered
+		for d.head < len(d.order) && d.order[d.head].done {
+			d.order[d.head] = nil
+			d.head++
+		}
+		if d.head < len(d.order) && d.order[d.head] != s {
+			m.count("dma_responses_out_of_issue_order", 1)
+			if d.order[d.head].cp == s.cp {
+				m.count("dma_responses_out_of_issue_order_within_one_copy", 1)
+			}
+		}
+		if d.head > 4096 && d.head*2 > len(d.order) {
+			d.order = append([]*dmaSub(nil), d.order[d.head:]...)
+			d.head = 0
 		}
 		s.done = true
 		s.data = append([]byte(nil), data...)
